@@ -699,6 +699,10 @@ class ExcelInPython:
         if area_number > len(matrix_list):
             return '#REF!'
 
+        # отрицательные номера не должны отсчитываться с конца диапазона
+        if (row_number is not None and row_number < 0) or (column_number is not None and column_number < 0):
+            return '#VALUE!'
+
         # Если пришел кортеж, значит имеем дело с несколькими диапазонами, берем заданный в area_number, по умолчанию 1
         array = matrix_list[area_number - 1] if isinstance(matrix_list, tuple) else matrix_list
         
